@@ -479,42 +479,72 @@ def rcReadInitN : Nat → M Bool
 
 @[inline] def rcReadInit : M Bool := fun s => rcReadInitN s.initLeft s
 
+/-- `dict.limit` as `lzma_decode` uses it locally: limited to the known uncompressed size when that fits
+    (`if (uncompressed_size != LZMA_VLI_UNKNOWN && uncompressed_size <= dict.limit - dict.pos) dict.limit = dict.pos + uncompressed_size`). -/
+def clampedLimit (s : St) : Nat :=
+  match s.uncomp with
+  | some u => if u ≤ s.dp.limit - s.dp.pos then s.dp.pos + u else s.dp.limit
+  | none => s.dp.limit
+
+/-- `might_finish_without_eopm` -/
+def mightFinish (s : St) : Bool :=
+  match s.uncomp with
+  | some u => u ≤ s.dp.limit - s.dp.pos
+  | none => false
+
+/-- The body of `lzma_decode` after `rc_read_init`, up to the label `out`: resume the pending output step, then run the
+    main loop under the clamped limit. -/
+def lzmaRun (s : St) : EStateM.Result Exit St Unit :=
+  let eopmValid := s.uncomp.isNone || s.eopmValid
+  let mf := mightFinish s
+  let s1 : St := { s with dp := { s.dp with limit := clampedLimit s }, pending := .none }
+  let fuel := s1.dp.limit - s1.dp.pos + 2
+  (do doWrite s.pending; symLoop fuel eopmValid mf : M Unit) s1
+
+/-- final state of a run, whether it ended normally or by an exit -/
+def resSt {ε σ α : Type} : EStateM.Result ε σ α → σ
+  | .ok _ s => s
+  | .error _ s => s
+
+/-- return value of `lzma_decode` for each way the main part can end -/
+def exitRet : EStateM.Result Exit St Unit → Ret
+  | .ok _ _ => .progError                 -- unreachable: symLoop only leaves by an exit
+  | .error .needInput _ => .ok
+  | .error .dataError _ => .dataError
+  | .error .streamEnd _ => .streamEnd
+  | .error (.outFull _) _ => .ok
+  | .error .fuel _ => .progError          -- unreachable: see `symLoop_spec`
+
+/-- the saved `coder->sequence` -/
+def exitPending : EStateM.Result Exit St Unit → Pending
+  | .error (.outFull p) _ => p
+  | .error .streamEnd _ => .none
+  | _ => .stuck
+
+/-- The code after the label `out` of `lzma_decode`: translate the exit into the return value and the saved
+    `sequence`, restore the caller's limit, account the produced bytes in `uncompressed_size`, detect
+    "all output produced but more wanted", reset the range decoder at LZMA_STREAM_END. -/
+def lzmaFinish (r : EStateM.Result Exit St Unit) (callLimit start : Nat) (uncomp0 : Option Nat) : Ret × St :=
+  let ret := exitRet r
+  let pending := exitPending r
+  let s := resSt r
+  let producedNow := s.hist.size - start
+  let uncomp := uncomp0.map (· - producedNow)
+  let isWrite := match pending with | .litWrite _ => true | .shortRep => true | .copy _ => true | _ => false
+  let ret := if uncomp == some 0 && ret == .ok && isWrite then Ret.dataError else ret
+  -- LZMA_STREAM_END: rc_reset; sequence = SEQ_IS_MATCH
+  let isEnd := ret == .streamEnd
+  (ret, { s with dp := { s.dp with limit := callLimit }, uncomp := uncomp,
+                 range := if isEnd then UINT32_MAX else s.range, code := if isEnd then 0 else s.code,
+                 initLeft := if isEnd then 5 else s.initLeft, pending := if isEnd then .none else pending })
+
 /-- One call of `lzma_decode(coder, dict, in, in_pos, in_size)` with `dict.limit` already set by the caller. -/
 def lzmaCall (s : St) : Ret × St :=
   if s.pending == .stuck then (.ok, s) else
   match rcReadInit s with
   | .error _ s => (.dataError, s)
   | .ok false s => (.ok, { s with pending := .stuck })
-  | .ok true s =>
-    let callLimit := s.dp.limit
-    let start := s.hist.size
-    let eopmValid := s.uncomp.isNone || s.eopmValid
-    -- limit the output to the known uncompressed size
-    let (s, mightFinish) :=
-      match s.uncomp with
-      | some u => if u ≤ s.dp.limit - s.dp.pos then ({ s with dp := { s.dp with limit := s.dp.pos + u } }, true) else (s, false)
-      | none => (s, false)
-    let fuel := s.dp.limit - s.dp.pos + 2
-    let pend := s.pending
-    let r := (do doWrite pend; symLoop fuel eopmValid mightFinish : M Unit) { s with pending := .none }
-    let (ret, pending, s) : Ret × Pending × St :=
-      match r with
-      | .ok _ s => (.progError, .stuck, s)            -- unreachable: symLoop only leaves by an exit
-      | .error .needInput s => (.ok, .stuck, s)
-      | .error .dataError s => (.dataError, .stuck, s)
-      | .error .streamEnd s => (.streamEnd, .none, s)
-      | .error (.outFull p) s => (.ok, p, s)
-      | .error .fuel s => (.progError, .stuck, s)
-    -- out: save state, restore the caller's limit
-    let producedNow := s.hist.size - start
-    let uncomp := s.uncomp.map (· - producedNow)
-    let isWrite := match pending with | .litWrite _ => true | .shortRep => true | .copy _ => true | _ => false
-    let ret := if uncomp == some 0 && ret == .ok && isWrite then Ret.dataError else ret
-    let s := { s with dp := { s.dp with limit := callLimit }, uncomp := uncomp, pending := pending }
-    if ret == .streamEnd then
-      -- rc_reset; sequence = SEQ_IS_MATCH
-      (ret, { s with range := UINT32_MAX, code := 0, initLeft := 5, pending := .none })
-    else (ret, s)
+  | .ok true s => lzmaFinish (lzmaRun s) s.dp.limit s.hist.size s.uncomp
 
 /-! ### LZ layer: `decode_buffer` (lz_decoder.c) -/
 
@@ -566,8 +596,8 @@ structure DecResult where
 /-- "as much output space as needed" -/
 abbrev UNLIMITED : Nat := 4611686018427387904   -- 2^62
 
-/-- the bytes of `hist` from `from` on -/
-def histFrom (h : ByteArray) (start : Nat) : List UInt8 := (h.extract start h.size).toList
+/-- the bytes of `hist` from `start` on -/
+def histFrom (h : ByteArray) (start : Nat) : List UInt8 := h.data.toList.drop start
 
 /-- LZMA1 as the (only) filter of a raw chain: the result of ONE call of its `code` function (`lz_decode`) with the
     complete `input` and `outCap` bytes of output space.
